@@ -11,6 +11,7 @@ import (
 	"fmt"
 	"go/ast"
 	"go/token"
+	"regexp"
 	"sort"
 	"strconv"
 	"strings"
@@ -50,6 +51,9 @@ func main() {
 	for _, m := range mods {
 		consts := map[string]int{}
 		for _, d := range m.constDirs {
+			evalConsts(ParseDir(repo+"/"+d), consts)
+		}
+		for _, d := range m.keeperDirs { // namespace constants may also be declared next to the keeper
 			evalConsts(ParseDir(repo+"/"+d), consts)
 		}
 		for _, d := range m.keeperDirs {
@@ -543,29 +547,49 @@ func genCfg(repo string) {
 	rid := "RidUnknown"
 	if fd := plainFunc(ParseDir(repo+"/x/oracle"), "InitGenesis"); fd != nil && fd.Body != nil {
 		body := Nospace(fd.Body)
-		switch {
-		case strings.Contains(body, "keeper.RewardsID.Set(ctx,data.Rewards[len(data.Rewards)-1].Id+1)"):
-			rid = "RidLastPlus1"
-		case strings.Contains(body, "keeper.RewardsID.Set(ctx,data.Rewards[len(data.Rewards)-1].Id)"):
-			rid = "RidLast"
+		// the keeper and genesis parameters may be renamed: names are wildcards, the formula is not
+		param := ""
+		for _, p := range fd.Type.Params.List {
+			if strings.Contains(Nospace(p.Type), "GenesisState") && len(p.Names) > 0 {
+				param = p.Names[0].Name
+			}
 		}
-		if strings.Count(body, "RewardsID.Set(") != 1 || !strings.Contains(body, "iflen(data.Rewards)!=0{keeper.RewardsID.Set(") {
-			rid = "RidUnknown"
+		d := regexp.QuoteMeta(param)
+		re := regexp.MustCompile(`iflen\(` + d + `\.Rewards\)!=0\{\w+\.RewardsID\.Set\(ctx,` + d + `\.Rewards\[len\(` + d + `\.Rewards\)-1\]\.Id(\+1)?\)\}`)
+		if m := re.FindStringSubmatch(body); m != nil && param != "" && strings.Count(body, "RewardsID.Set(") == 1 {
+			if m[1] == "+1" {
+				rid = "RidLastPlus1"
+			} else {
+				rid = "RidLast"
+			}
 		}
 	}
+	// tokenfactory: the function InitGenesis calls per genesis denom reads the bank metadata that x/bank's genesis
+	// already restored BEFORE calling the insert function (which writes the default metadata) and writes it back AFTER.
+	// Matched by structure; function, receiver and local names are wildcards (renames are harmless).
 	keeps := false
 	src := ""
-	tf := Funcs(ParseDir(repo + "/x/tokenfactory/keeper"))
-	if fd := tf["unsafeGenesisInsertDenom"]; fd != nil && fd.Body != nil {
-		src = Nospace(fd.Body)
-		i := strings.Index(src, ":=api.bankKeeper.GetDenomMetaData(ctx,genDenom.Denom)")
-		j := strings.Index(src, "api.unsafeInsertDenom(ctx,denom,admin)")
-		k := strings.Index(src, "{api.bankKeeper.SetDenomMetaData(ctx,bankMetadata)}")
-		keeps = i >= 0 && j > i && k > j && strings.Contains(src, "bankMetadata,hasBankMetadata:=") && strings.Contains(src, "ifhasBankMetadata{")
-	}
-	// unsafeInsertDenom must still be the function that writes the default metadata
-	if fd := tf["unsafeInsertDenom"]; fd == nil || !strings.Contains(Nospace(fd.Body), "api.bankKeeper.SetDenomMetaData(ctx,denom.DefaultBankMetadata())") {
-		keeps = false
+	{
+		tfFiles := ParseDir(repo + "/x/tokenfactory/keeper")
+		tf := Funcs(tfFiles)
+		genInsert := ""
+		if fd := tf["InitGenesis"]; fd != nil && fd.Body != nil {
+			if m := regexp.MustCompile(`for_,(\w+):=range\w+\.(?:GetFactoryDenoms\(\)|FactoryDenoms)\{(?:\w+\.)+(\w+)\(ctx,(\w+)\)\}`).FindStringSubmatch(stripComments(fd.Body)); m != nil && m[1] == m[3] {
+				genInsert = m[2]
+			}
+		}
+		if fd := tf[genInsert]; genInsert != "" && fd != nil && fd.Body != nil {
+			src = Nospace(fd.Body)
+			re := regexp.MustCompile(`(\w+),(\w+):=(\w+)\.bankKeeper\.GetDenomMetaData\(ctx,\w+\.Denom\)(\w+)\.(\w+)\(ctx,\w+,\w+\)if(\w+)\{(\w+)\.bankKeeper\.SetDenomMetaData\(ctx,(\w+)\)\}\}$`)
+			if m := re.FindStringSubmatch(stripComments(fd.Body)); m != nil && m[3] == m[4] && m[3] == m[7] && m[2] == m[6] && strings.HasSuffix(m[1], m[8]) { // m[1] may carry the previous token (no whitespace)
+				// the insert function must still be the one that writes the default metadata
+				if ins := tf[m[5]]; ins != nil && ins.Body != nil &&
+					regexp.MustCompile(`\w+\.bankKeeper\.SetDenomMetaData\(ctx,\w+\.DefaultBankMetadata\(\)\)`).MatchString(Nospace(ins.Body)) &&
+					strings.Count(src, "SetDenomMetaData(") == 1 {
+					keeps = true
+				}
+			}
+		}
 	}
 	// asset.Pair: the JSON codec used for every pair in a genesis file copies the string unchanged
 	pairID := false
@@ -590,9 +614,96 @@ func genCfg(repo string) {
 		pairID = un == "{varpairStringstringiferr:=json.Unmarshal(data,&pairString);err!=nil{returnerr}*pair=Pair(pairString)returnnil}" &&
 			ma == "{returnjson.Marshal(pair.String())}" && st == "{returnstring(pair)}"
 	}
-	fmt.Printf("Definition current_cfg : cfg := {| c_rid := %s; c_tf_keeps_bank_md := %s; c_pair_json_id := %s |}.\n", rid, CoqBool(keeps), CoqBool(pairID))
+	dgUpd, dgWrites := devgasWithdrawerRule(repo)
+	fmt.Printf("Definition current_cfg : cfg := {| c_rid := %s; c_tf_keeps_bank_md := %s; c_pair_json_id := %s; c_dg_upd := %s |}.\n", rid, CoqBool(keeps), CoqBool(pairID), dgUpd)
+	fmt.Printf("(* writes to FeeShare.WithdrawerAddress in x/devgas/v1/{keeper,types}: %s *)\n", strings.ReplaceAll(strings.Join(dgWrites, " | "), "*)", "* )"))
 	fmt.Printf("(* unsafeGenesisInsertDenom: %s *)\n", strings.ReplaceAll(src, "*)", "* )"))
 }
+
+// devgasWithdrawerRule: every place the x/devgas code writes the WithdrawerAddress of a FeeShare (assignments
+// `x.WithdrawerAddress = e`, composite literals `FeeShare{…, WithdrawerAddress: e}`), classified by the SHAPE of e:
+// `<expr>.String()` (a re-encoded address) or the literal "".  Only re-encoded addresses -> DgUpdKeep; re-encoded
+// addresses plus an assignment of "" inside UpdateFeeShare -> DgUpdRemoveIfDeployer (what its doc comment describes);
+// anything else -> DgUpdUnknown.  Local names, helper extraction and statement order do not matter.
+func devgasWithdrawerRule(repo string) (string, []string) {
+	var writes []string
+	encoded, empty, emptyInUpdate, other := 0, 0, 0, 0
+	classify := func(fn string, e ast.Expr) {
+		txt := Nospace(e)
+		writes = append(writes, fn+":"+txt)
+		if c, ok := e.(*ast.CallExpr); ok && len(c.Args) == 0 {
+			if sel, ok := c.Fun.(*ast.SelectorExpr); ok && sel.Sel.Name == "String" {
+				encoded++
+				return
+			}
+		}
+		if lit, ok := e.(*ast.BasicLit); ok && lit.Kind == token.STRING && (lit.Value == `""` || lit.Value == "``") {
+			empty++
+			if fn == "UpdateFeeShare" {
+				emptyInUpdate++
+			}
+			return
+		}
+		other++
+	}
+	for _, dir := range []string{"x/devgas/v1/keeper", "x/devgas/v1/types", "x/devgas/v1"} {
+		for _, fl := range ParseDir(repo + "/" + dir) {
+			if strings.HasSuffix(fl.Path, ".pb.go") || strings.HasSuffix(fl.Path, ".pb.gw.go") {
+				continue
+			}
+			for _, d := range fl.F.Decls {
+				fd, ok := d.(*ast.FuncDecl)
+				if !ok || fd.Body == nil {
+					continue
+				}
+				ast.Inspect(fd.Body, func(n ast.Node) bool {
+					switch x := n.(type) {
+					case *ast.AssignStmt:
+						for i, l := range x.Lhs {
+							if sel, ok := l.(*ast.SelectorExpr); ok && sel.Sel.Name == "WithdrawerAddress" && i < len(x.Rhs) {
+								// assignments to a MESSAGE field (msg.WithdrawerAddress = …) are not registry writes
+								if id, ok := sel.X.(*ast.Ident); ok && (id.Name == "msg" || id.Name == "req") {
+									continue
+								}
+								classify(fd.Name.Name, x.Rhs[i])
+							}
+						}
+					case *ast.CompositeLit:
+						tn := Nospace(x.Type)
+						if i := strings.LastIndex(tn, "."); i >= 0 {
+							tn = tn[i+1:]
+						}
+						if tn != "FeeShare" { // not the Msg…FeeShare messages
+							return true
+						}
+						for _, el := range x.Elts {
+							if kv, ok := el.(*ast.KeyValueExpr); ok {
+								if id, ok := kv.Key.(*ast.Ident); ok && id.Name == "WithdrawerAddress" {
+									classify(fd.Name.Name, kv.Value)
+								}
+							}
+						}
+					}
+					return true
+				})
+			}
+		}
+	}
+	sort.Strings(writes)
+	switch {
+	case other > 0 || encoded == 0:
+		return "DgUpdUnknown", writes
+	case empty == 0:
+		return "DgUpdKeep", writes
+	case empty == emptyInUpdate:
+		return "DgUpdRemoveIfDeployer", writes
+	}
+	return "DgUpdUnknown", writes
+}
+
+// stripComments: whitespace-free source of a node without comments (go/printer keeps comments only when it is
+// given the file's comment list, which Src does not pass — so this is Nospace; kept as a name for the intent)
+func stripComments(n ast.Node) string { return Nospace(n) }
 
 // plainFunc: the package-level function (no receiver) of that name
 func plainFunc(files []File, name string) *ast.FuncDecl {
